@@ -26,7 +26,7 @@ if os.path.exists("/tmp/selftest_all.log"):
             res[m.group(1)] = m.group(3)
 txt = ["Each case edits one construct of a scratch copy of the *current* `/repo` and re-runs the property's check: a mutant must",
        "be reported with a VIOLATION naming the expected rule, a benign twin (rename, mirrored comparison, equivalent idiom) must",
-       "leave the check silent. Last full run on the final tree (all cases as expected):", "",
+       "leave the check silent (the battery also replays the seeded patches of 7.2; counted in the last column). Last full run on the final tree:", "",
        "| property | mutants (must be reported) | twins (must stay silent) | rules exercised | last result |", "|---|---|---|---|---|"]
 tm = tt = 0
 for pid in sorted(rows):
@@ -56,13 +56,13 @@ if os.path.exists(mp):
 bp = os.path.join(ROOT, "seeded", "BENIGN.json")
 if os.path.exists(bp):
     B = json.load(open(bp))
-    txt = ["Fresh sub-agents were also asked for *behaviour-preserving* refactorings of the code behind ten properties (three each:",
-           "renames, extracted helpers, loops vs comprehensions, guard clauses, mirrored comparisons, moved methods ...), again without",
-           "seeing `/verif`. Each was applied to a scratch copy and the property's check was run; the expected outcome is exit 0.", "",
-           "| refactoring | what it does | check outcome | action |", "|---|---|---|---|"]
+    nsil = sum(1 for v in B.values() if v.get("outcome", "").startswith("all 20"))
+    txt = [f"{len(B)} refactorings; {nsil} leave all twenty checks silent on the final machinery.", "",
+           "| refactoring | what it does | own check, first run (before hardening) | all 20 checks, final |", "|---|---|---|---|"]
     for k in sorted(B):
         v = B[k]
-        txt.append(f"| {k} | {v.get('what','')} | {v.get('outcome','')} | {v.get('action','')} |")
+        what = v.get("what", "").replace("|", "/")
+        txt.append(f"| {k} | {what} | {v.get('first_run','') or '(delivered during the hardening round)'} | {v.get('outcome','').replace('|', '/')[:200]} |")
     d = block(d, "BENIGN", "\n".join(txt))
 open(os.path.join(ROOT, "DESIGN.md"), "w").write(d)
 print("tables written")
